@@ -183,9 +183,16 @@ func conformantUpgrade(w *World, s *sess, kind string, pollLoop func(stop func()
 	return c, true
 }
 
-func upBody(u upCase) vsched.Body {
+func upBody(u upCase) vsched.Body { return upBodyFor(u, "C08") }
+
+// upBodyFor runs the scenario with the oracle of the given property (C08: upgrade automaton; C03:
+// lifecycle of the session across the attempt; C04: registry at every quiescent point and at the end).
+func upBodyFor(u upCase, oracle string) vsched.Body {
 	return func(x *vsched.Exec) {
 		w := NewWorld(x, upOpts())
+		if oracle == "C04" {
+			x.OnQuiescent = func() { w.checkRegistry("[upgrade " + u.id() + "][quiescent]") }
+		}
 		s := openSession(x, w, "polling", u.pending)
 		if s == nil {
 			return
@@ -198,6 +205,7 @@ func upBody(u upCase) vsched.Body {
 		var sentApp []string // application sends, in order
 		scriptDone := false
 		sentUpgrade := false
+		staleChecked, staleUpgrading, staleThirdPong, staleSecondEntertained := false, false, false, false
 		collect := func(r *Resp) {
 			if r == nil || !r.wrote || r.Code != 200 {
 				return
@@ -295,6 +303,46 @@ func upBody(u upCase) vsched.Body {
 				w.BeginAction()
 				s.rec.Sock.Close(true)
 			})
+		case "close-late-upgrade":
+			// the application closes the session while an attempt is in progress; the client's upgrade
+			// packet is sent only after the close event has been seen (an action begun after the close)
+			vsched.GoNamed("act:close-true", func() {
+				w.BeginAction()
+				vsched.Sleep(50 * time.Millisecond)
+				s.rec.Sock.Close(true)
+			})
+			vsched.GoNamed("late-upgrade", func() {
+				vsched.WaitFor(0, "wait-close-event", func() bool { return s.rec.Count("close") > 0 })
+				w.BeginAction()
+				if len(cands) > 0 {
+					cands[0].send(Pkt{Type: '5'})
+				}
+			})
+		case "stale-timer":
+			// attempt A (the word) ends early; attempt B starts at 5s and is still in progress when A's
+			// upgrade timeout would have elapsed (10s); a third candidate then must still be refused
+			vsched.GoNamed("later-candidates", func() {
+				w.BeginAction()
+				vsched.Sleep(5 * time.Second)
+				b := dialCandidate(w, u.cand, s.pc.Sid)
+				cands = append(cands, b)
+				if !b.waitOpen() {
+					return
+				}
+				b.send(Pkt{Type: '2', Data: []byte("probe")})
+				vsched.SleepUntil(10500 * time.Millisecond)
+				staleUpgrading = s.rec.Sock.Upgrading()
+				staleChecked = true
+				staleSecondEntertained = b.gotProbePong()
+				c3 := dialCandidate(w, u.cand, s.pc.Sid)
+				if c3.waitOpen() {
+					c3.send(Pkt{Type: '2', Data: []byte("probe")})
+				}
+				vsched.Sleep(400 * time.Millisecond)
+				staleThirdPong = c3.gotProbePong()
+				b.send(Pkt{Type: '5'})
+				sentUpgrade = true
+			})
 		case "second":
 			vsched.GoNamed("candidate2", func() {
 				w.BeginAction()
@@ -327,6 +375,64 @@ func upBody(u upCase) vsched.Body {
 		for _, t := range x.Panics() {
 			x.Fail("panic%s: thread %s: %v (%s)\n%s", fp, t.Name, t.Panic, id, trimStack(t.Stack))
 		}
+		if u.context == "stale-timer" {
+			if !staleChecked {
+				x.Fail("stale-timer-script%s: the later candidates did not run (%s)", fp, id)
+			} else if !staleSecondEntertained {
+				// the first attempt was still pending when the second candidate arrived (its end was not
+				// noticed before the timeout: the events-before-listeners finding) - nothing to assert here
+				x.Outcome = "second candidate not entertained"
+				return
+			} else {
+				if !staleUpgrading {
+					x.Fail("upgrading-cleared-by-stale-timer[%s]: at 10.5s a second attempt (probe answered at 5s) is in progress but the session is not marked upgrading (%s)", u.cand, id)
+				}
+				if staleThirdPong {
+					x.Fail("two-candidates-entertained[%s stale-timer]: a third candidate was answered with a probe pong while the second attempt was in progress (%s)", u.cand, id)
+				}
+			}
+		}
+		if oracle == "C04" {
+			w.checkRegistry("[upgrade " + u.id() + "][end]")
+		}
+		if oracle == "C03" {
+			rec := s.rec
+			ci := -1
+			for i, e := range rec.Events {
+				if e.Name == "close" {
+					if ci >= 0 {
+						x.Fail("close-twice[upgrade %s]: %v (%s)", u.context, rec.CloseReasons(), id)
+					}
+					ci = i
+				}
+			}
+			if ci >= 0 {
+				ce := rec.Events[ci]
+				for _, e := range rec.Events[ci+1:] {
+					if e.Name == "close" {
+						continue
+					}
+					// (same-instant continuations of actions begun before the close are not "afterwards")
+					act, ok := w.actionOf(e.Thread)
+					if ok && e.At == ce.At && act <= ce.Seq && !(u.context == "close-late-upgrade" && e.Name == "upgrade") {
+						continue
+					}
+					x.Fail("event-after-close[upgrade %s][%s]: %s after close(%s at %v) (%s)", u.cand, e.Name, e, ce.Arg, ce.At, id)
+				}
+			}
+			last := 0
+			for _, e := range rec.Events {
+				if r := stateRank[e.State]; r < last {
+					x.Fail("state-backwards[upgrade]: %s (%s)", e, id)
+				} else {
+					last = r
+				}
+			}
+		}
+		if oracle != "C08" {
+			x.Outcome = fmt.Sprintf("close=%v upgraded=%v", s.rec.CloseReasons(), s.rec.Sock.Upgraded())
+			return
+		}
 		if !scriptDone {
 			x.Fail("script-blocked%s: the candidate script did not finish: blocked=%v (%s)", fp, x.Blocked(), id)
 			return
@@ -347,7 +453,7 @@ func upBody(u upCase) vsched.Body {
 		if u.word != "C" && u.word != "L" {
 			exp = upExpect(u.word)
 		}
-		if u.context == "close" {
+		if u.context == "close" || u.context == "close-late-upgrade" {
 			// the session was closed by the application at some point: nothing to assert about the switch,
 			// only that exactly one close happened and the candidate did not outlive it
 			if cr := rec.CloseReasons(); len(cr) != 1 {
@@ -367,6 +473,9 @@ func upBody(u upCase) vsched.Body {
 		if u.context == "second" {
 			// two candidates: at most one may win; the session must survive
 			exp = "either"
+		}
+		if u.context == "stale-timer" {
+			exp = "switch" // the second attempt completes at 10.9s
 		}
 		if cr := rec.CloseReasons(); len(cr) != 0 && !(switched && strings.ContainsAny(u.word, "pPxD") && strings.IndexByte(u.word, 'U') >= 0) {
 			x.Fail("session-lost%s: the session closed with %v (%s)", fp, cr, id)
@@ -544,6 +653,10 @@ func init() {
 				for _, wd := range []string{"P", "PU", "x"} {
 					out = append(out, upCase{cand, pending, wd, "close"}, upCase{cand, pending, wd, "second"})
 				}
+				if pending {
+					out = append(out, upCase{cand, pending, "PD", "stale-timer"}, upCase{cand, pending, "D", "stale-timer"})
+				}
+				out = append(out, upCase{cand, pending, "P", "close-late-upgrade"})
 			}
 		}
 		return out
@@ -581,4 +694,22 @@ func trimStack(st string) string {
 		out = out[:8]
 	}
 	return strings.Join(out, "\n")
+}
+
+// the same scenarios under the lifecycle (C03) and registry (C04) oracles
+func init() {
+	for _, prop := range []string{"C03", "C04"} {
+		prop := prop
+		for _, cand := range []string{"websocket", "webtransport"} {
+			for _, u := range []upCase{{cand, true, "C", ""}, {cand, true, "C", "close"}, {cand, true, "PU", "close"}, {cand, false, "PU", ""}, {cand, true, "P", "close"}, {cand, true, "x", ""}, {cand, true, "P", "close-late-upgrade"}, {cand, false, "P", "close-late-upgrade"}} {
+				u := u
+				register(prop, "upgrade/"+strings.ReplaceAll(u.id(), " ", "_"), false, func(c *Ctx) {
+					c.ExploreDev(u.id(), Pick(c, 1, 2), Pick(c, 2, 4), upBodyFor(u, prop))
+					c.Sample(u.id())
+					c.Res.Distinct = 1
+					c.Note("the C08 scenario (%s candidate, script %q, context %q) under this property's oracle", u.cand, u.word, u.context)
+				})
+			}
+		}
+	}
 }
